@@ -235,7 +235,7 @@ fn fork_map_c01<F: Fn(usize, &Collector)>(c: &Collector, what: &str, n_parts: us
     let crashes = fork_map(c, n_parts, timeout, &f);
     let mut confirmed = 0;
     for cr in crashes {
-        if confirmed >= 1 {
+        if confirmed >= 3 {
             c.note(format!("C01 {}: further abnormal worker end ({}) in partition {:?} (not re-run)", what, cr.how, cr.last_part));
             continue;
         }
@@ -330,6 +330,7 @@ pub fn c01(c: &Collector, g: &mut Guard) {
             }
         }
         cc.add_transitions(n);
+        cc.count("oracle_checks", n);
         cc.count("word_cases", n);
         cc.outcomes(&outcomes);
     });
@@ -365,6 +366,7 @@ pub fn c01(c: &Collector, g: &mut Guard) {
             }
         }
         cc.add_transitions(n);
+        cc.count("oracle_checks", n);
         cc.count("osc_shape_cases", n);
         cc.outcomes(&outcomes);
     });
@@ -391,6 +393,7 @@ pub fn c01(c: &Collector, g: &mut Guard) {
             }
         }
         cc.add_transitions(n);
+        cc.count("oracle_checks", n);
         cc.count("long_cases", n);
         cc.outcomes(&outcomes);
     });
@@ -455,6 +458,7 @@ pub fn c01(c: &Collector, g: &mut Guard) {
             }
         }
         cc.add_transitions(n);
+        cc.count("oracle_checks", n);
         cc.count("byte_cases", n);
         cc.outcomes(&outcomes);
     });
@@ -514,6 +518,7 @@ pub fn c01(c: &Collector, g: &mut Guard) {
             }
         }
         cc.add_transitions(n);
+        cc.count("oracle_checks", n);
         cc.count("macro_cases", n);
         cc.outcomes(&outcomes);
     });
@@ -660,6 +665,7 @@ pub fn c01(c: &Collector, g: &mut Guard) {
             let b = &hb[i / sizes.len()];
             let (l, w) = sizes[i % sizes.len()];
             cc.add_transitions(1);
+            cc.count("oracle_checks", 1);
             huge_resize_case(cc, b.columns, b.lines, &b.script, l, w, "E5.api.resize-huge");
             cc.count("huge_resize_cases", 1);
             if std::env::var("VERIF_VERBOSE").is_ok() {
@@ -677,6 +683,7 @@ pub fn c01(c: &Collector, g: &mut Guard) {
         fork_map_c01(c, "api.max-width", widths.len(), timeout, |i, cc| {
             for (k, _) in eops.iter().enumerate() {
                 cc.add_transitions(1);
+                cc.count("oracle_checks", 1);
                 max_width_case(cc, widths[i], k, "E5.api.max-width");
                 cc.count("max_width_cases", 1);
             }
@@ -706,6 +713,7 @@ pub fn c01(c: &Collector, g: &mut Guard) {
                 }
                 for utf8 in [true, false] {
                     cc.add_transitions(1);
+                    cc.count("oracle_checks", 1);
                     char_case(cc, 5, 3, &[w.clone()], utf8, "E5.stdout-broken", &mut o);
                     cc.count("stdout_broken_cases", 1);
                 }
@@ -715,7 +723,11 @@ pub fn c01(c: &Collector, g: &mut Guard) {
     // ---------------------------------------------------------------- API sequences, depth k, display interleaved
     let depth = if thorough { 3 } else { 2 };
     let bfs_geoms: Vec<((u32, u32), usize)> = if thorough { vec![((1, 1), 3), ((2, 1), 3), ((1, 2), 3), ((3, 2), 2)] } else { vec![((1, 1), 2), ((3, 2), 2)] };
-    for (gg, depth) in bfs_geoms {
+    // Each search runs in its own forked worker (which may use threads): a hang or an abort of
+    // the subject inside the search ends that worker, and the parent turns it into the verdict.
+    let bfs_timeout = Duration::from_secs(if thorough { 3 * 3600 } else { 900 });
+    fork_map_c01(c, "api.bfs", bfs_geoms.len(), bfs_timeout, |i, cc| {
+        let (gg, depth) = bfs_geoms[i];
         let sspec = Spec {
             geoms: vec![gg],
             fills: vec![Fill::F0, Fill::F1],
@@ -727,9 +739,9 @@ pub fn c01(c: &Collector, g: &mut Guard) {
             charsets: default_charsets(),
             hidden_cursor: false,
         };
-        let seeds = gen_bases(c, &sspec);
+        let seeds = gen_bases(cc, &sspec);
         let st = bfs(
-            c,
+            cc,
             &seeds,
             depth,
             4_000_000,
@@ -739,8 +751,8 @@ pub fn c01(c: &Collector, g: &mut Guard) {
                 c01_api_judge(c, t, "E5.api.bfs", local)
             },
         );
-        c.bound(&format!("api_bfs_levels_{}x{}", gg.0, gg.1), json!(st.levels));
-    }
+        cc.bound(&format!("api_bfs_levels_{}x{}", gg.0, gg.1), json!(st.levels));
+    });
     // ---------------------------------------------------------------- (iv) captured sessions
     c01_sessions(c, timeout);
     c.bound("geometries_api", json!(gs));
@@ -887,7 +899,8 @@ pub fn huge_resize_case(c: &Collector, columns: u32, lines: u32, script: &[Op], 
     }
 }
 
-pub fn c01_api_judge(c: &Collector, t: &crate::explore::Trans, engine: &str, _local: &mut crate::explore::Local) -> bool {
+pub fn c01_api_judge(c: &Collector, t: &crate::explore::Trans, engine: &str, local: &mut crate::explore::Local) -> bool {
+    local.count("oracle_checks");
     match t.outcome {
         Err(m) => {
             c.violation(mk_violation("C01", engine, t, &format!("panic:{}", panic_class(m)), format!("panicked: {}", m), json!({})));
@@ -1007,6 +1020,7 @@ fn c01_sessions(c: &Collector, timeout: Duration) {
             }
         }
         cc.add_transitions(n);
+        cc.count("oracle_checks", n);
         cc.count("session_cases", n);
     });
 }
